@@ -12,8 +12,10 @@ InheritAnnots(D) == (D.opts.attrs = <<>> /\ D.opts.typed = <<>>) \/ D.opts.usesk
 \* managed attributes this class becomes the owner of, with their collection family
 \* (the overflow attribute named by init_overflow_attr is a managed Dict[str, Any] attribute like any other)
 Overflow(D) == IF "overflow" \in DOMAIN D.opts /\ D.opts.overflow # "" THEN {[n |-> D.opts.overflow, fam |-> "map"]} ELSE {}
+\* a name selected through attrs= keeps the type it is annotated with on the class (Any, i.e. no collection family, only when it has none)
+AnnotFam(D, n) == IF \E a \in ToSet(D.annots) : a.n = n THEN (CHOOSE a \in ToSet(D.annots) : a.n = n).fam ELSE "none"
 Own(D) == (IF InheritAnnots(D) THEN {a \in ToSet(D.annots) : ~IsPrivate(D, a.n) /\ a.n \notin Names(D.opts.skip)} ELSE {})
-       \cup {[n |-> n, fam |-> "none"] : n \in Names(D.opts.attrs) \ NamesN(D.opts.typed)} \cup ToSet(D.opts.typed) \cup Overflow(D)
+       \cup {[n |-> n, fam |-> AnnotFam(D, n)] : n \in Names(D.opts.attrs) \ NamesN(D.opts.typed)} \cup ToSet(D.opts.typed) \cup Overflow(D)
 OwnNames(D) == {a.n : a \in Own(D)}
 AllNames(D) == OwnNames(D) \cup NamesN(D.inh)
 IllegalPrivate(D) == \E n \in Names(D.opts.attrs) \cup NamesN(D.opts.typed) \cup {a.n : a \in Overflow(D)} : IsPrivate(D, n)
